@@ -25,18 +25,18 @@ type World struct {
 	NextID   uint64
 	Items    int // -1 unbounded
 
-	SignalAt   time.Duration
-	Signalled  bool
-	SignalTime time.Duration
+	SignalAt         time.Duration
+	Signalled        bool
+	SignalTime       time.Duration
 	ReportedAtSignal int // len(Reported) when the signal was delivered
 
-	Exited       bool
-	ExitAt       time.Duration
-	ExitMsg      string
-	ExitReported int    // len(Reported) at the exit event
-	ExitOutput   string // content of the result file at the exit event
+	Exited        bool
+	ExitAt        time.Duration
+	ExitMsg       string
+	ExitReported  int    // len(Reported) at the exit event
+	ExitOutput    string // content of the result file at the exit event
 	AwaitReturned bool
-	Snapshot     func() string
+	Snapshot      func() string
 }
 
 type prov struct {
